@@ -153,6 +153,13 @@ func (s *Swarm[T]) Ask(ctx context.Context, resp []byte, dst Addr[T], data p2p.I
 			return err
 		}
 		defer stream.Close()
+		// the deadlines below cover a context with a deadline; a context that is cancelled
+		// must unblock the reads and writes on the stream as well
+		stop := context.AfterFunc(ctx, func() {
+			stream.CancelRead(0)
+			stream.CancelWrite(0)
+		})
+		defer stop()
 
 		log.Debug("opened bidi-stream", logctx.Any("stream-id", stream.StreamID()))
 		// deadlines
@@ -172,6 +179,10 @@ func (s *Swarm[T]) Ask(ctx context.Context, resp []byte, dst Addr[T], data p2p.I
 		n, err = readFrame(stream, resp, s.mtu)
 		return err
 	}); err != nil {
+		if ctx.Err() != nil {
+			// the stream was cancelled because the context ended: report that
+			return 0, ctx.Err()
+		}
 		return 0, err
 	}
 	return n, nil
